@@ -214,6 +214,36 @@ def check_rec(ctx):
         r, ps = A.reach(b, edge_targets(b, sw, l), blocked_nodes=set(rc))
         bad = [x for x in pub if x in r]
         ctx.check(not bad, inst, "DOM", b.path, "[existing = None] the key is counted before it is published", b.where(sw))
+    # amounts: what is debited is the size of the *displaced* generation, what is credited is the size of the scanned one
+    def base_call(e):
+        for _ in range(12):
+            if e.k in ("field", "downcast", "cast") and e.a:
+                e = e.a[0]
+            elif e.k == "call" and e.a and any(path_matches(e.extra, w) for w in ("slice::len", "Vec::len", "Deref::deref", "Arc::deref", "AsRef::as_ref")):
+                e = e.a[0]
+            else:
+                break
+        return e.extra if e.k == "call" else None
+    def from_existing(e):
+        return path_matches(base_call(e) or "", "HashMap::read")
+    def from_scanned(e):
+        return path_matches(base_call(e) or "", "RecordFormat::parse_record")
+    for sites, pred, what in ((ms, from_existing, "the bytes debited are calculate_record_size of the displaced generation (its own key / value length)"),
+                              (ma, from_scanned, "the bytes credited are calculate_record_size of the scanned record (parsed key / value length)")):
+        for n in sites:
+            amt = R.arg_expr(b, b.nodes[n], 1)
+            calls = [c for c in amt.walk() if c.k == "call" and path_matches(c.extra, "FeoxStore::calculate_record_size")]
+            ok = len(calls) == 1 and len(calls[0].a) == 3 and pred(calls[0].a[1]) and pred(calls[0].a[2])
+            ctx.check(ok, inst, "PROVENANCE", b.path, what, b.where(n), {"amount": amt.show()[:160]})
+    da = ctx.sites(b, R.field_write("Statistics", "disk_usage", ops=["fetch_add"]), inst, exact=1)
+    ds = ctx.sites(b, R.field_write("Statistics", "disk_usage", ops=["fetch_sub"]), inst, exact=1)
+    for sites, pred, what in ((ds, from_existing, "the disk bytes debited are the displaced generation's extent"),
+                              (da, from_scanned, "the disk bytes credited are the scanned record's extent")):
+        for n in sites:
+            amt = R.arg_expr(b, b.nodes[n], 1)
+            calls = [c for c in amt.walk() if c.k == "call" and path_matches(c.extra, "RecordFormat::total_size")]
+            ok = len(calls) == 1 and len(calls[0].a) == 3 and pred(calls[0].a[1]) and pred(calls[0].a[2])
+            ctx.check(ok, inst, "PROVENANCE", b.path, what, b.where(n), {"amount": amt.show()[:160]})
 
 
 def check_limit(ctx):
